@@ -254,7 +254,29 @@ def _shard_2d(arg):
     return t
 
 
+ORDER_CONFIGS = [(wi, wh, d, dh) for (wi, wh) in [(i, i) for i in range(7)] + [(0, 1), (1, 4), (2, 3), (3, 0), (4, 6), (6, 5)] for (d, dh) in ((1, 0), (0, 1), (1, 1), (2, 0))]
+ORDER_PICTURES = ((5, 3, ["ramp"]), (6, 6, ["checker"]))
+
+
+def _shard_order(arg):
+    """Call-order independence: configuration A transformed, then configuration B on the same
+    picture size in the same process; B's results must not depend on A."""
+    _, ai = arg
+    t = Tally()
+    a = ORDER_CONFIGS[ai]
+    for w, h, desc in ORDER_PICTURES:
+        for b in ORDER_CONFIGS:
+            check_2d(a[0], a[1], a[2], a[3], w, h, "Y", desc)
+            p, _ = check_2d(b[0], b[1], b[2], b[3], w, h, "Y", desc)
+            t.count("order_cases")
+            if p:
+                t.violation("after configuration %r: %s" % (a, p[0][:1200]), {"kind": "order", "a": list(a), "b": list(b), "w": w, "h": h, "content": desc})
+    return t
+
+
 def _dispatch(arg):
+    if arg[0] == "order":
+        return _shard_order(arg)
     return _shard_1d(arg) if arg[0] == "1d" else _shard_2d(arg)
 
 
@@ -291,7 +313,7 @@ def run(ctx):
                     for wh in FILTERS:
                         big.append(("2d", wi, wh, d, dh, bb["size"], family))
                         expected_2d[family] += n_cases_2d(range(1, bb["size"] + 1), family)
-    shards = big + shards
+    shards = big + shards + [("order", ai) for ai in range(len(ORDER_CONFIGS))]
     rot = ctx.seed % len(shards)
     shards = shards[rot:] + shards[:rot]
     total = pool.map_shards(_dispatch, shards)
@@ -300,6 +322,7 @@ def run(ctx):
         "oned": (total.n["oned_cases"], expected_1d),
         "twod_full": (total.n["twod_cases_full"], expected_2d["full"]),
         "twod_reduced": (total.n["twod_cases_reduced"], expected_2d["reduced"]),
+        "order": (total.n["order_cases"], len(ORDER_CONFIGS) ** 2 * len(ORDER_PICTURES)),
     }
     exhaustive = True
     for name, (got, want) in sorted(sizes.items()):
@@ -338,4 +361,8 @@ def replay_case(case):
     if case["kind"] == "2d":
         g = lambda k: int(case[k])  # noqa: E731
         return check_2d(g("wi"), g("wh"), g("d"), g("dh"), g("w"), g("h"), case["comp"], list(case["content"]))[0]
+    if case["kind"] == "order":
+        a, b = case["a"], case["b"]
+        check_2d(a[0], a[1], a[2], a[3], int(case["w"]), int(case["h"]), "Y", list(case["content"]))
+        return check_2d(b[0], b[1], b[2], b[3], int(case["w"]), int(case["h"]), "Y", list(case["content"]))[0]
     raise ValueError(case["kind"])
